@@ -344,8 +344,8 @@ def needle_cores(run, m, F, E):
                     elif (env is not None or s2.is_eq0(step - 1) is False) and robust([step]):
                         p3.append('after rejecting the candidate at the hit the scan resumes %r units later, not 1, without a failure table: '
                                   'candidates in between are never compared%s' % (step, '; witness ' + own.fmt_env(env) if env else ''))
-                    elif env is not None:
-                        # found in the abstraction of an arbitrary iteration: confirm on exactly interpreted first iterations
+                    elif env is not None or not robust([step]):
+                        # seen (or not excluded) in the abstraction of an arbitrary iteration: confirm on exactly interpreted first iterations
                         def scene(I2, st2):
                             st2.rng['hsize'] = (0, MAXLEN)
                             st2.rng['nsize'] = (1, MAXLEN)
